@@ -10,7 +10,7 @@ RULE = ("Bounded-exhaustive: every function body of AST size <= S (nesting <= 3,
         "generator, compiled by each present interpreter; every branch/swallow decision path (DFS over decision "
         "prefixes, <= 7 decisions); extract() and contexts_active_in_frame() at every suspension (including inside "
         "__aenter__/__aexit__) compared with the program's own shadow list of entered-not-exited managers "
-        "(identity, order, is_async, is_exiting, start_line, varname; no InspectionWarning, no Stack.error); bodies of size <= 3 (thorough 4) are run a second time with one re-entrant manager object per kind serving every with-block of the program, again (those that can raise) with managers whose __exit__/__aexit__ raises a new exception where the default ones swallow, and (bodies of size <= 4; quick: of the size-4 ones those with an async with and a try) a third time padded with 300 constants, and (size <= 3) with 140 never-executed statements at the start of every with-block body (relative jumps longer than 255 instructions) (every constant load and long jump then carries EXTENDED_ARG). "
+        "(identity, order, is_async, is_exiting, start_line, varname; no InspectionWarning, no Stack.error); plus every `try: raise / except <never matches>: A / except E: B` over all small with-bodies A, B; bodies of size <= 3 (thorough 4) are run a second time with one re-entrant manager object per kind serving every with-block of the program, again (those that can raise) with managers whose __exit__/__aexit__ raises a new exception where the default ones swallow, and (bodies of size <= 4; quick: of the size-4 ones those with an async with and a try) a third time padded with 300 constants, and (size <= 3) with 140 never-executed statements at the start of every with-block body (relative jumps longer than 255 instructions) (every constant load and long jump then carries EXTENDED_ARG). "
         "evaluations = observations; distinct_nontrivial = distinct (program, kind, interpreter) containing a with and "
         "a suspension.")
 ASSUMPTIONS = [
@@ -163,6 +163,19 @@ def run(ctx):
                 continue
             npaths, nobs = run_program(body, kind, ctx, make_observer, pad=True)
             ctx.count("padded_programs")
+            ctx.count("distinct_nontrivial")
+            ctx.count("paths", npaths)
+            ctx.count("evaluations", nobs)
+    # a with-block in the second except clause of a try whose first clause holds blocks too
+    for body in ps.two_clause_programs(g3, 2 if ctx.tier == "quick" else 3):
+        for kind in KINDS:
+            if not ps.kind_ok(body, kind) or not ps.nontrivial(body, kind):
+                continue
+            idx += 1
+            if not ctx.mine(idx):
+                continue
+            npaths, nobs = run_program(body, kind, ctx, make_observer)
+            ctx.count("two_clause_programs")
             ctx.count("distinct_nontrivial")
             ctx.count("paths", npaths)
             ctx.count("evaluations", nobs)
